@@ -542,10 +542,6 @@ def classify(item, got, exp, doc, ctxnode, known):
     name = ast[1] if ast[0] == "fn" else ""
     strs = []
     uses(ast, lambda x: strs.append(x[1]) if x[0] == "lit" else False)
-    if name == "str:align" and len(ast[2]) == 3 and ast[2][2][0] == "lit":
-        al = ast[2][2][1]
-        if any(al.startswith(kw) and al != kw for kw in ("center", "right")) and "K-C02x-3" in known:
-            return "K-C02x-3"
     if name == "str:decode-uri" and re.search(r"%[a-f]", ast[2][0][1]) and "K-C02x-1" in known:
         return "K-C02x-1"
     if name == "str:encode-uri" and any(ord(c) >= 0x100000 for c in ast[2][0][1]) and "K-C02x-2" in known:
@@ -559,6 +555,15 @@ def classify(item, got, exp, doc, ctxnode, known):
         alt = ref_eval(item, doc, ctxnode, units=u, negzero=nz)
         if not isinstance(alt, tuple) and not isinstance(got, tuple) and same_value(got, alt):
             return key
+    if name == "str:align" and len(ast[2]) == 3 and ast[2][2][0] == "lit":
+        al = ast[2][2][1]
+        for kw in ("center", "right"):
+            if al.startswith(kw) and al != kw and "K-C02x-3" in known:
+                # exactly that deviation: the library's value is what the definition gives for the bare keyword
+                for u in (False, True):
+                    alt = ref_eval(dict(item, ast=fn("str:align", ast[2][0], ast[2][1], lit(kw))), doc, ctxnode, units=u)
+                    if not isinstance(alt, tuple) and not isinstance(got, tuple) and same_value(got, alt):
+                        return "K-C02x-3"
     if name in ("str:padding", "str:align") and any(NONBMP(s) for s in strs) and isinstance(got, tuple) and got[0] == "err" \
             and "surrogate" in got[1] and "K6" in known:
         return "K6"      # a code-unit cut through a surrogate pair cannot even be serialised
@@ -819,7 +824,7 @@ def run_part(ctx):
         return
     known = {k["key"]: k for k in ctx.known.for_property(PID)}
     for k in ctx.known.for_property("C02"):
-        if k["key"] in ("K6", "K13"):
+        if k["key"] in ("K6", "K13") or k["key"].startswith("K-C02x"):
             known[k["key"]] = k
     for k in ctx.known.for_property("C03"):
         if k["key"] in ("K-new-1", "K-new-2"):
@@ -830,7 +835,7 @@ def run_part(ctx):
     bdoc = make_doc(__import__("random").Random(7), "small")
     bad += run_battery(ctx, exe, bdoc, known, hits)
     bad += run_battery(ctx, exe, make_doc(ctx.rng), known, hits)
-    n_docs = 40 if not ctx.thorough else 400
+    n_docs = 60 if not ctx.thorough else 500
     batches = make_batches(ctx, n_docs)
     ctx.cov["samples"] = (ctx.cov.get("samples") or []) + [xpgen.p_expr(it["ast"]) for b in batches[:3] for it in b["items"] if it["cls"] != "arg"][:12]
     corr, orc = run_stream(ctx, exe, model, batches, known, hits, stats)
